@@ -188,6 +188,34 @@ func main() {
 		dbt.ParkedWriterScenario(pw)
 		flush(pw)
 		pw.Close()
+	case "txnreplay":
+		// spec -> code: behaviours of Txn.tla (GenTxn.tla) replayed on real engines; file given as 4th argument
+		f, err := os.Open(os.Args[4])
+		if err != nil {
+			util.Die("open: %v", err)
+		}
+		sc := bufio.NewScanner(f)
+		sc.Buffer(make([]byte, 1<<20), 1<<20)
+		paths := 0
+		for sc.Scan() {
+			var path []dbt.TxnStep
+			if json.Unmarshal(sc.Bytes(), &path) != nil {
+				continue
+			}
+			paths++
+			if diff := dbt.ReplayTxnPath(path); diff != "" {
+				acts := []string{}
+				for _, st := range path {
+					acts = append(acts, st.A)
+				}
+				findings++
+				if findings <= 20 {
+					out.Encode(map[string]interface{}{"kind": "txnreplay", "what": diff, "path": acts})
+				}
+			}
+		}
+		f.Close()
+		trace.N = paths
 	case "txnfail":
 		// failing calls as later writes of a session transaction (C02: they leave the transaction's working state as it was)
 		tf := mk()
